@@ -18,6 +18,7 @@ RULE = (
     "registry before, id in Gateway.nodes at the moment of the write (checked inside the transport) and afterwards, nothing else added; "
     "no id appears twice among the answers that reached the wire; TooManyNodesError only when no id above the highest registered one is free, with no answer and an unchanged registry; any other "
     "outcome is a violation. Non-trivial = sparse registry (count != max id) or a boundary id 253-255 present; distinct = distinct case JSON."
+    ' Round 5: version None included; `save`/`reload` of the registry between requests.'
 )
 ASSUMPTIONS = ["the allocation policy itself is not fixed by the statement: any fresh id in 1..254 is accepted"]
 DELETABLE = ("ops", "fail_answers")
